@@ -12,6 +12,7 @@ from .core import Ctx
 from .facts import callee, resolved, strip, peel, walk, ARRAY
 from .facts import lit_value as lit_value_
 from .show import show
+from .repr_rules import MUTATING
 from .symalg import Frac, Poly, PW, Unsupported, same, lf
 import copy
 
@@ -445,8 +446,25 @@ def r34_documented_formulas(facts):
                         cinst = "config:%s.%s" % (self_ty_part, fld.get("name"))
                         if F.var_of(init0) == pv:
                             c.ok(cinst, F.loc(b, fld["e"]), "`%s` is the constructor's `%s` as given" % (fld.get("name"), pv.split("#")[0]), nontrivial=False)
-                        elif any(x_.get("k") in ("VarRef", "UpvarRef") and x_["v"] == pv for x_ in walk(init0)) or init0.get("k") == "Tuple":
-                            pass        # derived from it (re-assembled tuple ...): judged by the axis / provenance rules
+                        elif init0.get("k") == "Tuple":
+                            # a pair re-assembled from the parameter's components: each component is stored as given (their order is the axis rule's business)
+                            for i_, f_ in enumerate(init0["fields"]):
+                                f0 = strip(f_)
+                                hops1 = 0
+                                while isinstance(f0, dict) and f0.get("k") == "VarRef" and f0["v"] in lets and hops1 < 3:
+                                    f0 = strip(lets[f0["v"]])
+                                    hops1 += 1
+                                is_proj = isinstance(f0, dict) and f0.get("k") == "Field" and f0.get("idx") is not None and F.var_of(f0["e"]) == pv
+                                if is_proj or (F.var_of(f0) in pnames and pv in pnames and str(pnames.get(F.var_of(f0), "")).startswith(str(pnames[pv]) + ".")):
+                                    continue
+                                local_ = any(y_.get("k") == "Call" and (y_.get("callee") or {}).get("resolved_local") for y_ in walk(f0))
+                                if local_:
+                                    c.unk(cinst + "#%d" % i_, F.loc(b, f_), "component %d of `%s` goes through a helper function" % (i_, fld.get("name")))
+                                else:
+                                    c.bad(cinst + "#%d" % i_, F.loc(b, f_), "component %d of `%s` is stored as `%s`, not as the constructor's `%s.%d` was given: the layer then works with another "
+                                          "configuration than the caller asked for" % (i_, fld.get("name"), show(f0)[:50], pv.split("#")[0], i_))
+                        elif any(x_.get("k") in ("VarRef", "UpvarRef") and x_["v"] == pv for x_ in walk(init0)):
+                            pass        # derived from it: judged by the axis / provenance rules
                         else:
                             c.bad(cinst, F.loc(b, fld["e"]), "`%s` is not initialised from the constructor's `%s` (it is `%s`): the configuration the caller asked for is dropped"
                                   % (fld.get("name"), pv.split("#")[0], show(init0)[:40]))
@@ -495,6 +513,36 @@ def r34_documented_formulas(facts):
             c.bad("model:forward", where, why)
         else:
             c.unk("model:forward", where, why)
+    # the output remembered for backward is written by forward alone: backward (or anything else) that takes, clears or replaces it
+    # changes what the next backward differentiates (a second backward on the same forward panics or uses another output)
+    n_w = 0
+    # backward, update, and the crate-local functions they call
+    loop_fns = {x["def"] for x in facts.fns() if x.get("name") in ("backward", "update") and (x.get("impl_self") or "").startswith("corgi::model::Model")}
+    for _ in range(3):
+        for x in list(facts.bodies):
+            if x.get("root", x["def"]) in loop_fns:
+                for y in walk(facts.root(x)):
+                    if y.get("k") == "Call" and (y.get("callee") or {}).get("resolved_local") and (resolved(y) or "").startswith("corgi::model::"):
+                        loop_fns.add(resolved(y))
+    for b in facts.bodies:
+        mir = b.get("mir")
+        if not mir:
+            continue
+        rootdef = b.get("root", b["def"])
+        rb = facts.body(rootdef) or b
+        for p_ in mir["field_places"]:
+            if p_["ctx"] in MUTATING and any(isinstance(e_, dict) and (e_.get("adt") or "").startswith("corgi::model::Model") and e_.get("field") == "output" for e_ in p_["proj"]):
+                n_w += 1
+                is_fw = rb.get("name") == "forward" and (rb.get("impl_self") or "").startswith("corgi::model::Model")
+                if not is_fw and rootdef not in loop_fns:
+                    c.ok("model:output-writer:%s" % rootdef, "%s:%d" % (F.rel(b["file"]), p_["sp"][0]), "written outside backward / update (another entry point of the model)", nontrivial=False)
+                    continue
+                c.check(is_fw, "model:output-writer:%s" % rootdef, "%s:%d" % (F.rel(b["file"]), p_["sp"][0]),
+                        "the stored output is set by forward",
+                        "%s of Model.output in %s: backward and update leave the output that forward stored as it is (taking or clearing it makes a second backward "
+                        "on the same forward panic instead of returning its loss)" % (p_["ctx"], rootdef))
+    if mf:
+        c.floor("writes of Model.output", n_w, 1)
     for b in mb:
         where = "%s:%d" % (F.rel(b["file"]), b["sp"][0])
         fw = _forward(facts, b)
